@@ -47,7 +47,7 @@ func stringTable(c *Ctx, rule, rel, typ string) map[string]string {
 func runC07(c *Ctx) {
 	type fam struct {
 		pfx, typ, matcher, notF, outF string
-		user                            []string
+		user                          []string
 	}
 	fams := []fam{
 		{"DnsRequestOutboundIndex_", "DnsRequestOutboundIndex", "RequestMatcher.Match", "match.Not", "match.Upstream", []string{"Reject", "AsIs"}},
